@@ -14,6 +14,8 @@ def register(w):
             "a == b or (a == 'uninitialized' and b == 'running') or (a == 'running' and (b == 'done' or b == 'error' or b == 'stopped'))"
             " or ((a == 'done' or a == 'error') and b == 'stopped')")
 
+    w.macro("valid_status", ["s"], "s == 'uninitialized' or s == 'running' or s == 'done' or s == 'error' or s == 'stopped'")
+
     @w.contract(BI + "_notify_subscribers", props=["C07", "C14"])
     def _(c):
         # a raising subscriber changes nothing at all: no exception escapes, no field is written
@@ -40,3 +42,34 @@ def register(w):
         c.ens("status_step(old(self.status), self.status)", label="status-edge-allowed")
         c.ens("implies(old(self.status) == 'running', self.status == 'done' and self.output == output)", label="running-completes-to-done")
         c.ens("implies(old(self.status) != 'running', self.status == old(self.status) and self.output == old(self.output))", label="complete-only-once")
+
+
+    @w.contract(BI + "_unregister_children_from_system", props=["C15"])
+    def _(c):
+        c.trusted = "assumed frame: edits the ROOT interpreter's system registry only (bounded: C15 driver checks the registry after stopChild / stop)"
+
+    @w.contract(SI + "stop", props=["C14", "C08"])
+    def _(c):
+        c.no_runtime = True
+        AE, PSC = "self._after_events", "self._pending_send_cancels"
+        c.mod("self.status", "self._actors", AE, "self._after_threads", PSC, "self._scheduled_sends")
+        c.req("valid_status(self.status)")
+        ACTIVE = "(old(self.status) != 'uninitialized' and old(self.status) != 'stopped')"
+        c.ens("status_step(old(self.status), self.status)", label="status-edge-allowed")
+        c.ens(f"implies(not {ACTIVE}, self.status == old(self.status) and len({AE}) == len(old({AE})) and len(self._actors) == len(old(self._actors)))", label="stop-is-idempotent")
+        c.ens(f"implies({ACTIVE}, self.status == 'stopped')", label="stopped-afterwards")
+        c.ens(f"implies({ACTIVE}, len(self._actors) == 0 and len({AE}) == 0 and len(self._after_threads) == 0 and len(self._scheduled_sends) == 0)", label="no-actor-timer-or-delayed-send-left")
+        c.ens(f"implies({ACTIVE}, forall[Flag](lambda f: not (f in {PSC})))", label="no-pending-send-left")
+        c.ens(f"implies({ACTIVE}, forall[str](lambda k: implies(k in old({AE}), old({AE})[k].is_set)))", label="every-timer-flag-set")
+        c.ens(f"implies({ACTIVE}, forall[Flag](lambda f: implies(f in old({PSC}), f.is_set)))", label="every-delayed-send-flag-set")
+        SEEN = "forall[str](lambda k: (k in self._actors) == (k in old(self._actors) and not exists[int](lambda j: 0 <= j and j < _i and keys(old(self._actors))[j] == k)))"
+        MONO = "forall[Flag](lambda f: implies(old(f.is_set), f.is_set))"
+        c.loop(0, inv=[SEEN, "self.status == 'stopped'"])
+        c.loop(1, inv=[f"forall[int](lambda j: implies(0 <= j and j < _i, {AE}[keys({AE})[j]].is_set))", MONO, f"len({AE}) == len(old({AE}))",
+                       f"forall[str](lambda k: (k in {AE}) == (k in old({AE})) and implies(k in {AE}, {AE}[k] == old({AE})[k]))", "len(self._actors) == 0", "self.status == 'stopped'"])
+        c.loop(2, inv=["forall[int](lambda j: implies(0 <= j and j < _i, _seq[j].is_set))", MONO,
+                       f"forall[str](lambda k: implies(k in old({AE}), old({AE})[k].is_set))", "self.status == 'stopped'",
+                       f"len(self._actors) == 0 and len({AE}) == 0 and len(self._after_threads) == 0"])
+        c.loop(3, inv=["self.status == 'stopped'", f"len(self._actors) == 0 and len({AE}) == 0 and len(self._after_threads) == 0 and len(self._scheduled_sends) == 0",
+                       f"forall[Flag](lambda f: not (f in {PSC}))", f"forall[str](lambda k: implies(k in old({AE}), old({AE})[k].is_set))",
+                       f"forall[Flag](lambda f: implies(f in old({PSC}), f.is_set))"])
